@@ -16,6 +16,8 @@ Inductive case :=
 | CPctText (m e : Z) (o : Z)
 (* HEXBytes: value -> MarshalText -> UnmarshalText, also with "0x" in front *)
 | CHexRT (bs : list N) (o_text : list N) (o_back o_back0x : outcome (list N))
+(* compact form used for long values: both UnmarshalText results were observed to be Ok bs *)
+| CHexRTSame (bs : list N) (o_text : list N)
 | CHexText (text : list N) (o : outcome (list N))
 (* NewKeyEnvelope(label, kek, key): observed (KEKLabel, AESKey) and what Unwrap(kek) then returns *)
 | CEnvNew (label kek key : list N) (o : outcome (list N * list N)) (o_unwrap : outcome (list N))
@@ -43,6 +45,10 @@ Definition check (c : case) : N :=
     code (bytes_eqb (hexbytes_marshal bs) o_text && obeqb (hexbytes_unmarshal o_text) o_back
           && obeqb (hexbytes_unmarshal (48 :: 120 :: o_text)%N) o_back0x)
          (obeqb o_back (Ok bs) && obeqb o_back0x (Ok bs))
+  | CHexRTSame bs o_text =>
+    code (bytes_eqb (hexbytes_marshal bs) o_text)
+         (Nat.eqb (length o_text) (2 * length bs) && obeqb (hexbytes_unmarshal o_text) (Ok bs)
+          && obeqb (hexbytes_unmarshal (48 :: 120 :: o_text)%N) (Ok bs))
   | CHexText text o =>
     code (obeqb (hexbytes_unmarshal text) o)
          (match o with Ok bs => Nat.eqb (length (trim0x text)) (2 * length bs) | _ => true end)
